@@ -29,7 +29,7 @@ func runC02(c *Ctx) {
 	ruleLookupCost(c)
 	c.rule("R-GOAT-REBUILD", 1, "under a raised flag and height > limit(subtree size) the subtree is rebuilt with its size, returned, and the flag cleared")
 	ins := P.Func("stree", "Tree", "insert")
-	rewrite := P.Func("stree", "", "rewrite")
+	rewrite := streeRebuild(P)
 	nodeSize := P.Func("stree", "node", "size")
 	sizeF := P.Field("stree", "Tree", "size")
 	// the depth-limit role: the Tree field through which the initial budget of the insertion is computed — a
@@ -237,17 +237,26 @@ func runC02(c *Ctx) {
 		}
 		leafSeen = true
 		leafPos = ret.Pos()
-		ph, ok := ret.Results[flagIdx].(*ssa.Phi)
-		if !ok {
-			return
+		// the flag: a φ over the two cases, or a constant per return (one return per case)
+		type fv struct {
+			e    ssa.Value
+			pred *ssa.BasicBlock
 		}
-		for i, e := range ph.Edges {
+		var fvs []fv
+		if ph, ok := ret.Results[flagIdx].(*ssa.Phi); ok {
+			for i, e := range ph.Edges {
+				fvs = append(fvs, fv{e, ph.Block().Preds[i]})
+			}
+		} else {
+			fvs = append(fvs, fv{ret.Results[flagIdx], ret.Block()})
+		}
+		for _, x := range fvs {
+			e, pred := x.e, x.pred
 			k, isC := constInt(e)
 			if !isC || k == 0 {
 				continue
 			}
 			// the edge must be guarded by budget < c (c in {0,1}) or budget <= c (c in {-1,0})
-			pred := ph.Block().Preds[i]
 			for _, cm := range cmpsAt(pred) {
 				if cm.X == ssa.Value(bp) {
 					if k2, ok := constInt(cm.Y); ok && ((cm.Op == token.LSS && (k2 == 0 || k2 == 1)) || (cm.Op == token.LEQ && (k2 == -1 || k2 == 0))) {
